@@ -25,10 +25,13 @@ PROP = dict(
         "unit by itself iff it is a break word or has no non-break single-character neighbour; otherwise it is recorded only inside the "
         "concatenated run (records_strict_refuted shows the strict reading is false by design; counted in "
         "generator_stats.single_chars_recorded_only_inside_a_run). Break-word singles ARE learned individually (pre-survey said never).",
-        "top_is_default: hypothesis `the first k-path is the whole-range edge` (breadth-first shortest_path, part of the C03 conversion "
-        "model) is not proved here; it is compared with the real code by every `learn default` record. Given it, trim_paths removes "
-        "every competing segmentation, so the score proviso of the pre-survey is vacuous (top_is_default_scored kept for an engine "
-        "without trimming).",
+        "top_is_default (partial): proved here = find_best_phrase picks the strictly most frequent phrase, the breadth-first shortest_path "
+        "takes the whole-range edge when node 0 has it, trim_paths then discards every other k-path; hypotheses (not proved, part of the "
+        "C03 conversion model; compared with the real code by every `learn default` record) = find_intervals puts that edge (one per end) "
+        "into graph[0] and find_k_paths returns the shortest path first, the other paths being non-empty intervals inside the range. "
+        "Consequence: the score proviso of the pre-survey is vacuous for this engine (generator_stats."
+        "default_is_x_although_a_split_outscores_it counts real runs where a split out-scores X and X is still the default); "
+        "top_is_default_scored keeps the proviso version for an engine without trimming.",
         "after close and reopen: learned_persists assumes reopening preserves the map (C10/C11); the harness checks it on file-backed "
         "traces, waiting for the background writer before closing (the in-flight-writer schedule is C10's F12)",
         "candidate window = merged lookup of the range (C07); commit of a chosen phrase yields the single interval (C04)",
@@ -47,10 +50,10 @@ MANIFEST = dict(
          "under exactly its syllables (units characterised: multi-character phrases, break-word singles, maximal runs of other singles; strict "
          "single-character reading refuted by design), user dictionary unchanged when disabled, learned phrase listed by the merged lookup, "
          "50 <= 64 learnings put X strictly above every homophone for all frequency pairs <= 1 000 000 (monotone gap induction, no pair "
-         "enumeration; 50 is tight), and then X is the default conversion of the bare syllables given that the first k-path is the whole-range "
-         "edge (partial: that BFS fact is hypothesis + correspondence). Persistence across reopen: explicit hypothesis + harness. "
+         "enumeration; 50 is tight), and then X is the default conversion of the bare syllables: BFS shortest path = whole-range edge and "
+         "trim_paths removes all competitors are proved, the graph construction is hypothesis + correspondence (partial). Persistence across reopen: explicit hypothesis + harness. "
          "Tie: translator + per-step correspondence through a real Editor (in-memory and file-backed user dictionaries) + exact estimate grid.",
     note="Trusted: Lean kernel (axioms propext, Classical.choice, Quot.sound only), tools/extract.py, the harness and the compiled model driver. "
-         "partial clauses: top_is_default (first-k-path hypothesis), persistence (reopen hypothesis), candidate window (C07).",
+         "partial clauses: top_is_default (graph-construction hypotheses), persistence (reopen hypothesis), candidate window (C07).",
     technique="Lean 4 proof (induction, invariants, omega over translator-regenerated constants) + sampled model/implementation correspondence with a statement-level oracle",
 )
